@@ -275,7 +275,9 @@ def run_check(prop, tier, seed, bounded=True):
         'property_id': prop, 'tier': tier, 'seed': seed, 'level': level, 'wall_s': round(wall, 2),
         'violations': len(violated) + len(bounded_fail),
         'coverage': {
-            'obligations': len(all_obs), 'discharged': len(discharged),
+            # obligations matched by an open known finding are reported separately (known_finding_obligations), not counted here
+            'obligations': len([o for o in all_obs if o['status'] != 'known-finding']), 'discharged': len(discharged),
+            'known_finding_obligations': sorted(o['name'] for o in all_obs if o['status'] == 'known-finding'),
             'checker_cmd': f'./check {prop} --tier {tier}',
             'trusted_base': sorted(axioms) + getattr(pm, 'TRUSTED', []) + ['ENGINE pyvc (VC generator; validated by canaries/mutants/CPython cross-check, not proved)', 'z3 5.1.0', 'cvc5 1.0.3 (fallback)'],
             'samples': samples,
